@@ -214,39 +214,68 @@ def run(cx, rep):
 
     # ---------------------------------------------------------------- C05.5
     rep.rule("C05.5", "polarity of the path walk in bdd_every_result")
-    g = [f for f in F.fns.values() if f.name == "bdd_every_result"]
+    # located by role, not by name: the status combiner is the function (IsEmptyStatus, IsEmptyStatus) -> IsEmptyStatus;
+    # the path walk is the self-recursive function over a &Rc<Bdd> that carries two equally typed optional
+    # accumulators (positive first, negative second) and answers an IsEmptyStatus
+    def is_status(t):
+        return t.replace("subtyping::", "").endswith("IsEmptyStatus")
+    combiners = [f for f in F.fns.values() if f.mir and f.kind != "Closure" and len(f.inputs or []) == 2 and all(is_status(t) for t in f.inputs) and is_status(f.output or "")]
+    walkers = []
+    for f in F.fns.values():
+        if not f.mir or f.kind == "Closure" or f.id not in F.hir or "IsEmptyStatus" not in (f.output or ""):
+            continue
+        ins = f.inputs or []
+        if not ins or "Bdd" not in ins[0]:
+            continue
+        opt = [i for i, t in enumerate(ins) if t.startswith("&std::option::Option<")]
+        if len(opt) == 2 and ins[opt[0]] == ins[opt[1]] and f.id in F.edges.get(f.id, ()):
+            walkers.append((f, opt))
+    g = [w[0] for w in walkers]
     if len(g) != 1:
-        rep.anchor_missing("C05.5", "bdd_every_result")
+        rep.anchor_missing("C05.5", "the BDD path walk (self-recursive fn(&Rc<Bdd>, pos, neg, ..) -> IsEmptyStatus); found %d" % len(g))
     else:
         f = g[0]
+        opt = walkers[0][1]
         tree = F.hir[f.id]
-        ps = [p.get("name") for p in tree["params"]]
-        recs = [n for n in walk(tree["body"]) if n["k"] == "Call" and (n.get("callee") or "").endswith("bdd_every_result")]
+        plids = [p.get("lid") if p["k"] == "P.Binding" else None for p in tree["params"]]
+        pos_lid, neg_lid = plids[opt[0]], plids[opt[1]]
+        # binders of the Node arm, by field of Bdd::Node
+        fld = {}
+        for n in walk(tree["body"]):
+            if n["k"] == "P.Struct" and (n.get("def") or "").endswith("Bdd::Node"):
+                for fl in n["fields"]:
+                    for bnd in walk(fl["pat"]):
+                        if bnd["k"] == "P.Binding":
+                            fld[bnd.get("lid")] = fl["name"]
+        def lids(e):
+            return [x.get("lid") for x in walk(e) if x["k"] == "Path" and x.get("res") == "local"]
+        recs = [n for n in walk(tree["body"]) if n["k"] == "Call" and F._callee_gid(f.crate, n.get("callee") or "") == f.id]
         seen = {}
         for c in recs:
-            which = (locals_in(c["args"][0]) or ["?"])[0]
-            a1 = c["args"][1]
-            a2 = c["args"][2]
+            which = ([fld[l] for l in lids(c["args"][0]) if l in fld] or ["?"])[0]
             def ext(a, base):
-                calls = [x for x in walk(a) if x["k"] == "Call" and (x.get("callee") or "").endswith("::and")]
-                if not calls:
-                    return "same" if locals_in(a) == [base] else "?"
-                ls = locals_in(calls[0])
-                return "extended" if base in ls and any(l not in (base,) for l in ls) else "?"
-            seen[which] = (ext(a1, ps[1]), ext(a2, ps[2]))
+                ls = lids(a)
+                calls = [x for x in walk(a) if x["k"] == "Call" and x is not a or x["k"] == "Call"]
+                inner = [x for x in walk(a) if x["k"] == "Call"]
+                if not inner:
+                    return "same" if ls == [base] else "?"
+                # extended: a constructor call that takes the accumulator and the node's atom
+                return "extended" if base in ls and any(fld.get(l) == "atom" for l in ls) else "?"
+            seen[which] = (ext(c["args"][opt[0]], pos_lid), ext(c["args"][opt[1]], neg_lid))
         want = {"left": ("extended", "same"), "right": ("same", "extended"), "middle": ("same", "same")}
         for br, w in want.items():
             rep.ob("C05.5", "walk-%s" % br, seen.get(br) == w,
-                   "bdd_every_result: recursion on `%s` passes (pos,neg) = %s, expected %s" % (br, seen.get(br), w), f.loc(),
+                   "%s: recursion on `%s` passes (pos,neg) = %s, expected %s (left under +atom, right under -atom, middle under neither)" % (f.name, br, seen.get(br), w), f.loc(),
                    sample={"branch": br, "pos_neg": seen.get(br)})
-        combos = [n for n in walk(tree["body"]) if n["k"] == "Call" and (n.get("callee") or "").endswith("and_empty_status")]
-        rep.ob("C05.5", "combined-with-and", len(combos) == 2 and len(recs) == 3, "the three sub-results must be combined with and_empty_status (found %d combiners for %d recursive calls)" % (len(combos), len(recs)), f.loc())
+        cids = {c.id for c in combiners}
+        combos = [n for n in walk(tree["body"]) if n["k"] == "Call" and F._callee_gid(f.crate, n.get("callee") or "") in cids]
+        rep.ob("C05.5", "combined-with-and", len(combos) == 2 and len(recs) == 3, "the three sub-results must be combined with the conjunction of statuses (found %d combiners for %d recursive calls)" % (len(combos), len(recs)), f.loc())
         t = [a for n in walk(tree["body"]) if n["k"] == "Match" for a in n["arms"] if (a["pat"].get("def") or "").endswith("Bdd::False")]
         rep.ob("C05.5", "false-leaf-empty", len(t) == 1 and any((x.get("def") or "").endswith("IsEmptyStatus::IsEmpty") for x in walk(t[0]["body"])),
                "the False leaf contributes IsEmpty", f.loc())
-    g2 = [f for f in F.fns.values() if f.name == "and_empty_status"]
+    g2 = combiners
     if len(g2) != 1:
-        rep.anchor_missing("C05.5", "and_empty_status")
+        rep.anchor_missing("C05.5", "the status combiner fn(IsEmptyStatus, IsEmptyStatus) -> IsEmptyStatus; found %d" % len(g2))
     else:
         import armalg
         m = armalg.Model()
@@ -270,6 +299,27 @@ def run(cx, rep):
         except armalg.Uninterpretable as e:
             rep.ob("C05.5", "and-table/uninterpretable", False, "cannot interpret and_empty_status: %s" % e, g2[0].loc())
 
+    # ---------------------------------------------------------------- C05.inv
+    # assignability is emptiness of a difference: the set operations themselves are decided by C06 (arm algebra over
+    # the BDD layer and the tag-wise operations); a wrong arm there flips assignability answers, so it is a C05
+    # violation as well
+    rep.rule("C05.inv", "the set operations under the subtype test are exact (C06.1 BDD arms, C06.3 tag-wise operations)")
+    from report import Report
+    import importlib
+    sub = Report.__new__(Report)
+    sub.pid = "sub"; sub.tier = rep.tier; sub.level = "other"; sub.t0 = 0
+    sub.rules = {}; sub.violations = []; sub.samples = []; sub.analysed = {}; sub.assumptions = []; sub.trusted = []
+    sub.explanation = ""; sub.notes = []; sub.extra = {}; sub.known = {}; sub.known_hit = set()
+    try:
+        importlib.import_module("rules.c06").run(cx, sub)
+        for rid_ in ("C06.1", "C06.3"):
+            r = sub.rules.get(rid_, {"obligations": 0, "discharged": 0})
+            bad = [v for v in sub.violations if v["rule"] == rid_]
+            rep.ob("C05.inv", rid_, not bad and r["obligations"] > 0,
+                   "%s is violated, so `S <= T` (emptiness of S \\ T) is decided on a wrong difference: %s" % (rid_, "; ".join(v["msg"][:240] for v in bad[:2])),
+                   bad[0]["loc"] if bad else None, sample={"rule": rid_, "obligations": r["obligations"], "discharged": r["discharged"]})
+    except Exception as e:
+        rep.ob("C05.inv", "C06-rules", False, "could not evaluate the C06 rules inside C05: %s" % e)
     # ---------------------------------------------------------------- C05.6
     rep.rule("C05.6", "alternatives explored in a loop of a recursive decision procedure start from the same state")
     n66 = scratch_rule(F, rep, "C05.6", lambda f: (f.file or "").endswith(("subtyping/bdd.rs", "subtyping/mapping.rs", "subtyping/subtype.rs", "subtyping/semtype.rs")))
